@@ -25,7 +25,7 @@ var c15Toggles = []adapt.Op{
 	{Kind: adapt.OpForceOn}, {Kind: adapt.OpForceOff},
 }
 var c15ToggleNames = []string{"none", "internal", "deprecated", "forceon", "forceoff"}
-var c15OpKinds = []string{"put", "update", "delete", "get", "query", "scan", "batchwrite", "batchget", "transact", "batchwrite-empty", "batchwrite-empty-table-entry"}
+var c15OpKinds = []string{"put", "update", "delete", "get", "query", "scan", "batchwrite", "batchget", "transact", "batchwrite-empty", "batchwrite-empty-table-entry", "batchwrite-same"}
 
 func c15SeqCount() int { return 5 + 25 + 125 }
 
@@ -71,6 +71,10 @@ func c15DataOp(kind string, t string, salt int) adapt.Op {
 		return adapt.Op{Kind: adapt.OpScan, Table: t}
 	case "batchwrite":
 		return adapt.Op{Kind: adapt.OpBatchWrite, Batch: []adapt.BatchEntry{{Table: t, Put: ixItem("p", "b1", "x", "1", salt)}, {Table: t, Del: key}}}
+	case "batchwrite-same":
+		// a batch that is sent again: every put writes an item exactly as it is stored already (the set-up items of
+		// toggleCase). Nothing would change - it still is a data call, and an active failure fails it like any other
+		return adapt.Op{Kind: adapt.OpBatchWrite, Batch: []adapt.BatchEntry{{Table: t, Put: ixItem("p", "1", "x", "9", 1)}, {Table: t, Put: ixItem("q", "1", "", "", 3)}}}
 	case "batchwrite-empty":
 		// a batch without any request: it has nothing to apply, but it is a data call like the others - under an
 		// active failure it does not report success (the configured error, or the refusal of the empty request)
